@@ -161,3 +161,47 @@ claim("C14", "abstract interpretation of Caser.Identifierize over all strings of
       "Three known findings (caseless-mapping lower-case first letter; non-decimal numerals; a colliding definition met while the first is in progress is declared under the same name).",
       "as C01; Identifierize is replaced by its specification only inside the schema families, its own behaviour is what A-IDENT decides",
       "DESIGN.md §2 C14")
+
+# ---- additions made after the first complete build (multi-file families, relational twins, A-SIZED, new B rules) ----
+def extend(pid, technique, text):
+    c = CHECKS[pid]
+    if technique:
+        c["technique"] += "; " + technique
+    c["text"] += " ADDED: " + text
+
+MULTI = ("multi-file abstract generator runs (several in-memory schema files with cross-file $refs behind the module's own CachedLoader, several routings and argument orders)")
+
+extend("C20", MULTI + "; joint go/types check of all emitted packages; must-pass-through rule on main's mapping assembly (B-MAPDEFAULT); id-verbatim rule; B-REFCACHE freshness",
+       "multi-file families decide that every reached schema's root type is declared exactly once in the output file and package mapped to its id (two packages; one package in two files; "
+       "default output; unrelated extra file; same $id; same base name; cross-file cycle; typeless self-referential root), that a reference is qualified and imported iff packages differ, that all "
+       "emitted packages type-check together, that each definition is validated where it lands, and that a file's normalised output is the same for every argument order and with unrelated files; "
+       "B-MAPDEFAULT: package and output name of a mapping are set (flag or default) on every path. Known findings: suffix assignment depends on argument order; de-duplication by text across files; "
+       "unused import for a cross-package allOf branch. Not decided: real file writing.")
+extend("C10", MULTI + "; relational inline-twin comparison; one-type-per-definition (A-SHARE)",
+       "every broad-family member at a reference position is compared with its inline twin (an issue counts only if the inline form does not show it); a definition referenced twice yields one type "
+       "generated once; cross-file forms as in C20; the ref-text cache is created afresh per file. Three defects found this way were fixed (array definitions lost min/maxItems; multipleOf on a number "
+       "definition did not compile; allOf/anyOf definitions were regenerated per reference).")
+extend("C15", ENGINE_A + "; A-SIZED end-to-end oracle over the region domain",
+       "for integer properties with integral bounds in 12 forms (inclusive, boolean-exclusive, numeric-exclusive, one- and two-sided) x 3 positions under --min-sized-ints, in every feasible cell of each "
+       "bound between the type limits: each stated bound is enforced by an emitted branch or implied by the Go type's range, no unstated bound is enforced, and the type holds the smallest and largest "
+       "admitted integer. One known finding (bounds cleared in the schema node are lost on a second visit through allOf/anyOf).")
+extend("C05", "A-SIZED families (shared with C15); composition and multi-file members",
+       "the same bounds under --min-sized-ints (a check may be absent only where the type implies it); a composition that tightens a referenced base leaves the base's own checks alone; same-named "
+       "definitions in two files differing only in minimum/maximum/multipleOf keep their own limits.")
+extend("C06", "composition and multi-file members",
+       "a composition that tightens a referenced base leaves the base's own length/pattern checks alone (validators must not read schema nodes a later merge wrote to); same-named definitions in two "
+       "files differing only in minLength/maxLength/pattern keep their own limits.")
+extend("C07", "array members at reference positions; composition and multi-file members",
+       "arrays as definitions behind $ref (a defect found and fixed: their limits were dropped); composition and two-file members as for C06, for minItems/maxItems.")
+extend("C04", "composition and multi-file members", "same-named definitions in two files differing only in `required`; allOf compositions over a shared base.")
+extend("C09", MULTI, "the assigned literal must be THIS property's default; same-named definitions in two files differing only in a default keep their own; object default on a property-less object (defect fixed).")
+extend("C01", "A-IMPORTSET: abstract interpretation of Package.AddImport on pairs of registrations",
+       "the import list stays unique by path whatever the aliases; allOf compositions and definitions referenced twice are part of the broad union (three compile defects found and fixed).")
+extend("C02", MULTI, "a composition is built from this file's definitions also when another file uses the same reference text; one base extended by two compositions is not written to by the merge.")
+extend("C03", MULTI, "the two-file members 'same reference text as an allOf branch' and 'same-named definitions differing in a nested reference target' (the latter is a known finding).")
+extend("C11", "go/types on the composed files", "allOf/anyOf definitions referenced twice are generated once and compile; shared-base and tightening compositions.")
+extend("C12", "", "the unsorted-keys exception additionally requires that the loop over the keys carries no state from one id to the next.")
+extend("C13", "B-PARSER provenance rule", "the name whose extension selects the YAML/JSON parser is the resolved file name (first result of QualifiedFileName) at every call site.")
+extend("C14", MULTI, "two files with the same $id or the same base name both keep their root type; a titled root colliding with a definition keeps its root type (defect fixed).")
+extend("C18", ENGINE_A + " on every valid broad-family member (no interpreted panic)", "errors collected into a []error must reach the return on every path; every valid family member is generated without panic.")
+extend("C08", "", "enum items of array definitions; enum values that normalise to one identifier get distinct constants (defect fixed); the sized-int enum defect is fixed.")
